@@ -142,6 +142,14 @@ class Case:
         """Returns (is_request, ident)"""
         M, REALM = self.M, self.REALM
         hbh, e2e = c.next_ids()
+        # "~h0" / "~e0": the request bears hop-by-hop resp. end-to-end identifier 0 (a legal value)
+        if "~" in letter:
+            letter, zero = letter.split("~")
+            if zero == "h0" and not any(r[2] == 0 for r in c.unanswered):
+                hbh = 0
+            if zero == "e0" and not any(r[3] == 0 for r in c.unanswered):
+                e2e = 0
+            self.run.cov["zero_identifier_requests"] = self.run.cov.get("zero_identifier_requests", 0) + 1
         p = c.p
         name = c.name
         req = None
@@ -353,6 +361,10 @@ DIRECTED = [
     ("in-ready", "answer", ["CERbadip", "DWRbad", "DPRbad", "REQbadval"]),
     ("out-ready", "threading-answer", ["REQbadval", "DWRbad", "CERbadapp", "DPRbad"]),
     ("in-waiting-dwa", "answer", ["DWRbad", "REQbadval", "DPRbad"]),
+    ("in-ready", "answer", ["DWR~h0", "DWR~e0", "REQ~h0", "REQ~e0", "REQmiss~h0", "REQapp~e0", "DPR~h0"]),
+    ("in-connected", "answer", ["CER~h0", "REQ~e0"]),
+    ("in-connected", "answer", ["CER~e0", "DWR~h0"]),
+    ("out-ready", "defer", ["REQ~h0", "SUB", "REQ~e0", "SUB", "DPR~e0"]),
 ]
 
 
@@ -384,6 +396,8 @@ def run_shard(spec):
             nconn = rng.choice([1, 1, 2, 3])
             d = rng.randrange(2, 9)
             script = [(rng.randrange(nconn), rng.choice(LETTERS)) for _ in range(d)]
+            script = [(ci, l + rng.choice(["~h0", "~e0"])) if l in REQ_LETTERS and rng.random() < 0.12 else (ci, l)
+                      for ci, l in script]
             run.one(rng.choice(STARTS), rng.choice(BEHAVIOURS), script, nconn)
     return run.result()
 
